@@ -415,6 +415,191 @@ def replay_known(ctx):
             ctx.spec_failure({"stream": "known-witness", **w}, {"cache_says": impl[-1], "file_system_says": m_world}, f["what"], f["key"])
 
 
+# ------------------------------------------------------------------ the commands cache against the file system, richer world
+def _rich_history(item):
+    """one history on a real CommandsCache in a world the cache MACHINE does not model: a relative $PATH entry (resolved
+    against the current directory, which changes), a symlinked entry that is retargeted, a $PATH directory that is removed and
+    recreated, entries named like commands that are links to directories, and $ENABLE_COMMANDS_CACHE toggled while the cache
+    object lives.  Returns, per lookup, what the cache's three views say and what a POSIX walk of $PATH finds right now."""
+    ops, seed = item
+    common.setup_repo_imports()
+    import random
+
+    from xonsh.built_ins import XSH
+    from xonsh.commands_cache import CommandsCache
+    from xonsh.environ import Env
+
+    rng = random.Random(seed)
+    root = os.path.realpath(str(common.scratch_root() / f"c08r-{uuid.uuid4().hex[:8]}"))
+    D = {}
+    clock = {}
+
+    def settime(d, bump=True):
+        clock[d] = clock.get(d, 1_600_000_000) + (1 if bump else 0)
+        os.utime(d, (clock[d], clock[d]))
+
+    def mk(d):
+        os.makedirs(d, exist_ok=True)
+        settime(d, bump=True)
+
+    for k in ("d0", "d1", "d2", "w0/rel", "w1/rel", "target"):
+        D[k] = os.path.join(root, k)
+        mk(D[k])
+    W = [os.path.join(root, "w0"), os.path.join(root, "w1")]
+    link = os.path.join(root, "lnk")
+    os.symlink(D["d1"], link)
+    names = ["c0", "c1", "c2"]
+    for k, ns in (("d0", ["c0"]), ("d1", ["c1"]), ("d2", ["c0", "c2"]), ("w0/rel", ["c1", "c2"]), ("w1/rel", ["c0"])):
+        for nm in ns:
+            Layout.mkexec(os.path.join(D[k], nm))
+        settime(D[k])
+    os.chdir(W[0])
+    entry = {"d0": D["d0"], "d1": D["d1"], "d2": D["d2"], "rel": "rel", "lnk": link}
+    env = XSH.env = Env(PATH=[entry["d0"], entry["rel"], entry["lnk"]], HOME=root, XONSH_COMMANDS_CACHE_READ_DIR_ONCE=[], ENABLE_COMMANDS_CACHE=True,
+                        XONSH_DATA_DIR=root, COMMANDS_CACHE_SAVE_INTERMEDIATE=False)
+    cc = XSH.commands_cache = CommandsCache(env)
+    cache_on = True
+
+    def posix(nm):
+        for e in env["PATH"]:
+            d = e if os.path.isabs(e) else os.path.join(os.getcwd(), e)
+            if os.path.isdir(d):
+                c = os.path.join(d, nm)
+                if os.path.isfile(c) and os.access(c, os.X_OK):
+                    return os.path.realpath(c)
+        return None
+
+    out = []
+    try:
+        for op in ops:
+            o = op[0]
+            if o == "lookup":
+                nm = names[op[1]]
+                loc = cc.locate_binary(nm)
+                out.append({"locate": None if loc is None else os.path.relpath(os.path.realpath(loc), root), "in": nm in cc, "listed": nm in set(cc),
+                            "posix": None if posix(nm) is None else os.path.relpath(posix(nm), root), "cache_on": cache_on})
+                continue
+            out.append(None)
+            if o == "chdir":
+                os.chdir(W[op[1]])
+            elif o == "retarget":
+                os.unlink(link)
+                os.symlink(D[["d1", "d2", "target"][op[1]]], link)
+            elif o == "setpath":
+                env["PATH"] = [entry[k] for k in op[1]]
+            elif o == "create":
+                d = D[op[1]]
+                if os.path.isdir(d) and not os.path.lexists(os.path.join(d, names[op[2]])):
+                    Layout.mkexec(os.path.join(d, names[op[2]]))
+                    settime(d)
+            elif o == "delete":
+                d = D[op[1]]
+                pth = os.path.join(d, names[op[2]])
+                if os.path.isdir(d) and os.path.lexists(pth) and not os.path.isdir(pth):
+                    os.unlink(pth)
+                    settime(d)
+            elif o == "linkdir":  # an entry named like a command that is a link to a DIRECTORY
+                d = D[op[1]]
+                pth = os.path.join(d, names[op[2]])
+                if os.path.isdir(d) and not os.path.lexists(pth):
+                    os.symlink(D["target"], pth)
+                    settime(d)
+            elif o == "rmdir":
+                d = D[op[1]]
+                if os.path.isdir(d) and os.getcwd() != d:
+                    shutil.rmtree(d)
+            elif o == "mkdir":
+                d = D[op[1]]
+                if not os.path.isdir(d):
+                    mk(d)
+            elif o == "cacheflag":
+                cache_on = bool(op[1])
+                env["ENABLE_COMMANDS_CACHE"] = cache_on
+            elif o == "chmodoff":  # generated only while the listing cache is switched off: then it must be noticed
+                pth = os.path.join(D[op[1]], names[op[2]])
+                if not cache_on and os.path.isfile(pth) and not os.path.islink(pth):
+                    st = os.stat(D[op[1]])
+                    os.chmod(pth, 0o644)
+                    os.utime(D[op[1]], ns=(st.st_atime_ns, st.st_mtime_ns))
+    finally:
+        os.chdir("/")
+        shutil.rmtree(root, ignore_errors=True)
+    del rng
+    return out
+
+
+def stream_rich(ctx, n, length, name="cache-vs-filesystem-rich-world"):
+    ctx.stream_rule(
+        name,
+        "histories on a real CommandsCache in a world the cache machine does not model (property oracle, no model): a RELATIVE "
+        "$PATH entry with the current directory changing, a SYMLINKED entry retargeted and put back, a $PATH directory removed and "
+        "recreated, entries named like commands that are links to directories, $ENABLE_COMMANDS_CACHE switched off and on while the "
+        "cache object lives (mode changes only while it is off); at every lookup locate_binary / `in` / listing must agree with a "
+        "POSIX walk of $PATH done with the os module at that moment; non-trivial = a lookup after a change that followed a lookup",
+    )
+    dirs = ["d0", "d1", "d2", "w0/rel", "w1/rel"]
+    items = []
+    for _ in range(n):
+        r = ctx.rng
+        ops = []
+        off_for_good = r.random() < 0.35
+        off = False
+        for i in range(length):
+            k = r.random()
+            if off_for_good and not off and i >= 2:
+                ops.append(["cacheflag", False])
+                off = True
+            elif off and k < 0.14:
+                # the listing cache is off: a mode change must be noticed at the very next lookup
+                nm = r.randrange(3)
+                ops += [["lookup", nm], ["chmodoff", r.choice(dirs), nm], ["lookup", nm]]
+            elif k < 0.36:
+                ops.append(["lookup", r.randrange(3)])
+            elif k < 0.46:
+                ops.append(["chdir", r.randrange(2)])
+            elif k < 0.54:
+                ops.append(["retarget", r.randrange(3)])
+            elif k < 0.64:
+                ops.append(["setpath", r.sample(["d0", "d1", "d2", "rel", "lnk"], r.randint(1, 4))])
+            elif k < 0.74:
+                ops.append(["create", r.choice(dirs), r.randrange(3)])
+            elif k < 0.81:
+                ops.append(["delete", r.choice(dirs), r.randrange(3)])
+            elif k < 0.87:
+                ops.append(["linkdir", r.choice(dirs), r.randrange(3)])
+            elif k < 0.91:
+                ops.append(["rmdir", r.choice(["d1", "d2"])])
+            elif k < 0.95:
+                ops.append(["mkdir", r.choice(["d1", "d2"])])
+            elif off:
+                ops.append(["chmodoff", r.choice(dirs), r.randrange(3)])
+            else:
+                ops.append(["lookup", r.randrange(3)])
+        ops.append(["lookup", r.randrange(3)])
+        items.append([ops, r.randrange(1 << 30)])
+    results = common.map_in_child(_rich_history, items, per_item_timeout=60, label="c08-rich")
+    for (ops, _), res in zip(items, results):
+        if res == common.HANG or (isinstance(res, dict) and "__exc__" in res):
+            raise common.InfraError(f"C08 rich-world worker failed: {res}")
+        seen = changed = nontriv = False
+        for op in ops:
+            ctx.count("rich/" + op[0])
+            if op[0] == "lookup":
+                nontriv = nontriv or (seen and changed)
+                seen = True
+            elif seen:
+                changed = True
+        ctx.case(name, repr(ops), nontriv, {"ops": ops[:8]})
+        for i, (op, o) in enumerate(zip(ops, res)):
+            if op[0] != "lookup":
+                continue
+            views = {o["locate"] is not None, o["in"], o["listed"]}
+            if o["locate"] != o["posix"] or len(views) > 1:
+                ctx.spec_failure({"stream": name, "ops": ops[: i + 1]}, o,
+                                 "a commands-cache view (locate_binary / in / listing) disagrees with a POSIX walk of $PATH at that moment", None)
+                break
+
+
 def run(ctx):
     ctx.assumptions += [
         "a directory's mtime changes whenever an entry is created or deleted in it (the harness sets it with os.utime so the clock is controlled)",
@@ -428,6 +613,7 @@ def run(ctx):
     stream_layouts(ctx, ctx.n(60, 800))
     stream_read_once(ctx, ctx.n(20, 200))
     stream_cache(ctx, ctx.n(150, 2500), ctx.n(14, 22))
+    stream_rich(ctx, ctx.n(150, 2000), ctx.n(14, 20))
 
 
 def search(ctx, reason):
